@@ -535,7 +535,7 @@ func init() {
 		Run: runC06,
 		Rule: "case = from().groupBy('a') or ('a','b') [+groupByMeasurement], or a groupBy(*) node over series that share a and b and differ in whether (and with which value) they carry a third tag, followed by 1-3 nodes from 14 grouping-aware node forms (where, eval with the stateful functions sigma/count/spread, stateCount, stateDuration, derivative, changeDetect, sample, window+sum, alert with stateChangesOnly, an idle barrier (30s) that deletes a silent group (writers pause 2 virtual minutes after a fifth of their points) in front of stateCount / count(), predicates and evals over a field that is present in only some points, default, and window+sum/mean, cumulativeSum, difference over a field that is a float in some groups and an integer in others) over 2-4 groups whose tag values contain ',', '=', spaces and prefixes of one another (including pairs that serialise to the same 'k=v,k=v' string); run A feeds all groups with one concurrent writer each, runs B_g feed group g alone, every run under its own seeded schedule and sync.Pool behaviour; " +
 			"(round 3) further forms: httpOut below a deleting idle barrier (its rows are read over HTTP at the end: one row per live group, equal to the row the group gets when fed alone), delete().tag of a group-by tag in front of stateCount / a count window (groups then differ in the remaining tag and the measurement), and a join / a union of two branches (where, eval) of the batches of a 3s window; " +
-			"one case in eight instead rewrites the group-by tag after the groupBy (default().tag) for points written with and without the tag by two concurrent writers and requires one per-group counter (count(), stateCount, cumulativeSum) over their union; " +
+			"one case in eight instead (in a third of these, groupBy(*).exclude(...) with the exclusions in unsorted order over series that differ only in an excluded tag) rewrites the group-by tag after the groupBy (default().tag) for points written with and without the tag by two concurrent writers and requires one per-group counter (count(), stateCount, cumulativeSum) over their union; " +
 			"non-trivial = some group produced output; distinct = distinct (scenario, interleaving signatures) tuples",
 		Real:        []string{"FromNode/groupBy, edge.GroupedConsumer, models.ToGroupID", "WhereNode, EvalNode + tick/stateful (Expression.CopyReset, ScopePool), StateTracking nodes, DerivativeNode, ChangeDetectNode, SampleNode, WindowNode + InfluxQLNode, AlertNode, DefaultNode", "TaskMaster, httpd write endpoint"},
 		Stub:        []string{"log sink at the end of the chain"},
